@@ -232,6 +232,11 @@ def generate(rng, opts):
     return {
         # entries of the search path that do not exist, are plain files, or appear twice are legal (sys.path has them)
         "odd_paths": rng.sample(["missing", "dup", "file"], rng.choice([0, 0, 0, 1, 2])),
+        # a long-lived loader that already served another request (cached directory listings, inserted search paths)
+        "reuse_loader": rng.random() < 0.3,
+        # search-path directories are named by the user: one name may be a string prefix of another, or hold a space
+        "sp_names": rng.sample(["lib", "lib2", "src", "src-extra", "sp1", "sp10", "site packages", "x"], 3) if rng.random() < 0.5 else None,
+        "other_top": rng.choice(TOP_NAMES + ["nothing_here"]),
         "sp_order": sp_order,
         "world": {"dirs": dirs, "n_listed": n_listed},
         "target": target,
@@ -473,7 +478,7 @@ def execute(plan, ctx):
 
     world = plan["world"]
     tags = []
-    with World(world["dirs"], tag="c14-") as w:
+    with World(world["dirs"], tag="c14-", names=plan.get("sp_names")) as w:
         order = [i for i in plan.get("sp_order", range(world["n_listed"])) if i < world["n_listed"]]
         order += [i for i in range(world["n_listed"]) if i not in order]
         sps = [w.sp_dirs[i] for i in order]
@@ -515,13 +520,24 @@ def execute(plan, ctx):
                 tree = None
                 with seam.installed():
                     try:
-                        top = griffe.load(
-                            spec,
-                            search_paths=sps,
-                            allow_inspection=plan["inspection"],
-                            try_relative_path=form in ("strpath", "relstr"),
-                            find_stubs_package=bool(plan["cfg"].get("stubs_pkg")),
-                        )
+                        if plan.get("reuse_loader") and li % 2 == 1:
+                            loader = griffe.GriffeLoader(search_paths=sps, allow_inspection=plan["inspection"])
+                            try:
+                                other = plan.get("other_top", "nothing_here")
+                                cand_other = [os.path.join(sp, other) for sp in sps if os.path.isdir(os.path.join(sp, other))]
+                                loader.load(Path(cand_other[0]) if cand_other and form != "name" else other, try_relative_path=form in ("strpath", "relstr"))
+                            except (ImportError, griffe.LoadingError):
+                                pass
+                            top = loader.load(spec, try_relative_path=form in ("strpath", "relstr"), find_stubs_package=bool(plan["cfg"].get("stubs_pkg")))
+                            ctx.probe("loader-reused-for-second-package")
+                        else:
+                            top = griffe.load(
+                                spec,
+                                search_paths=sps,
+                                allow_inspection=plan["inspection"],
+                                try_relative_path=form in ("strpath", "relstr"),
+                                find_stubs_package=bool(plan["cfg"].get("stubs_pkg")),
+                            )
                         tree = norm_tree(w, top)
                         outcome = "ok"
                     except (ModuleNotFoundError, griffe.LoadingError) as e:
@@ -621,6 +637,10 @@ def shrink_candidates(plan):
         yield {**plan, "inspection": False}
     if plan.get("odd_paths"):
         yield {**plan, "odd_paths": []}
+    if plan.get("reuse_loader"):
+        yield {**plan, "reuse_loader": False}
+    if plan.get("sp_names"):
+        yield {**plan, "sp_names": None}
     if plan.get("sp_order") and plan["sp_order"] != sorted(plan["sp_order"]):
         yield {**plan, "sp_order": sorted(plan["sp_order"])}
 
